@@ -145,7 +145,9 @@ CHECKS["C05"] = dict(
           "lag angles, laminations, stranded regions and small-skin-depth boundaries (whose solutions the SI oracle, extended with "
           "the documented complex permeability and skin-depth impedance, also checks); theorems: flat complex density reproduces "
           "the circuit current, conducting circuits get their own unknown, eddy coefficient -j a w sigma c/12 / zero in laminated "
-          "and wound regions, static limit of the complex permeability, prescribed potential (a/c)(cos phi + j sin phi). PARTIAL: "
+          "and wound regions, static limit of the complex permeability, prescribed potential (a/c)(cos phi + j sin phi); element level: the "
+          "eddy block is -j w sigma c times the consistent mass matrix a/12 [2 1 1; 1 2 1; 1 1 2], the stiffness part Mx/mu2 + My/mu1 + Mxy v12 "
+          "is complex-symmetric, is the reluctivity form and annihilates constants (a uniform potential produces no flux). PARTIAL: "
           "the axisymmetric time-harmonic assembly, later Newton / successive-approximation passes, air-gap elements, incremental "
           "materials and GetFillFactor's curve fits are outside the model."),
     design_ref="DESIGN.md section 3, C05",
